@@ -33,3 +33,39 @@ prop("C20",
      technique="runtime differential monitor against an executable reference (bounded-exhaustive + random inputs), panic capture",
      assumptions=["reference matcher is the memoised declarative definition (DESIGN appendix B2)",
                   "byte-wise, case-sensitive matching as documented by the package"])
+
+prop("C14",
+     level="exploration",
+     exhaustive=True,
+     parts=[{"engine": "replay"}],
+     floor={"quick": 10000, "thorough": 100000},
+     rule="Histories of Check/Mark on the real transport.SlidingWindow; after every step Check is compared with the set-based "
+          "reference on the 19 edge probes and on every counter in [top-520, top+2]. Exhaustive: every delta sequence of "
+          "length <=3 (quick) / <=4 (thorough) over 19 deltas straddling block and window edges, from 40 start counters, in "
+          "two usage modes (Mark only when accepted; Mark always). Random walks with jump mixtures. Non-trivial = one "
+          "complete history (distinct by enumeration, walks by seed).",
+     level_text="Differential monitoring of the real SlidingWindow against a set+maximum reference after every step of "
+                "bounded-exhaustive delta histories and long random walks (up to 10^5 steps, counters up to 2^63).",
+     level_note="Trusts the 15-line reference; histories longer than 4 steps are sampled (walks), not enumerated.",
+     technique="runtime differential monitor against an executable reference model (bounded-exhaustive histories + random walks)",
+     assumptions=["counters stay below 2^63 as the property states", "usage protocol of readPacketLocked: Check, then Mark only on authentic packets"])
+
+prop("C04",
+     level="exploration",
+     parts=[{"engine": "certs"}],
+     floor={"quick": 5000, "thorough": 100000},
+     rule="Certificate forests forged as bytes from construction records (1-3 roots, 0-4 intermediates, 1-6 leaves; any type "
+          "in any slot, correct/foreign/zero/random parent links, signatures by the right key, another key, garbage or zero; "
+          "names of every id type incl. empty and 252-byte labels; validity windows around a clock grid), parsed with the "
+          "repository's ReadFrom and verified with the real Store.VerifyLeaf/VerifyParent for random trust-store subsets, "
+          "presented intermediates, requested names and clock values (bounds +-1s, +-1ns). Plus every single-bit flip of the "
+          "raw leaf and raw presented intermediate of verified chains, and chains produced by the issuing API. Non-trivial = "
+          "a query whose real verdict was compared with the reference; distinct by (forest, query index, reference clause) "
+          "or by bit position.",
+     level_text="Differential monitoring of certs.Store.VerifyLeaf / certs.VerifyParent against a reference verifier evaluated "
+                "on the forge's construction records (iff: both wrongly-accepted and wrongly-rejected verdicts are violations); "
+                "exhaustive over bit positions of sampled verified chains.",
+     level_note="Trusts crypto/ed25519 and the harness forge/reference; signature validity ground truth is by construction "
+                "(which key signed), key-index equality standing for key equality.",
+     technique="runtime differential monitor against a reference verifier over forged certificate forests; exhaustive single-bit mutation of verified chains",
+     assumptions=["independent 32-byte key seeds do not collide", "expiry bound exclusive, issue bound inclusive, as the property's rationale states"])
